@@ -35,6 +35,10 @@ pub enum Op {
     /// never materialised; only issued when the claim cannot fit, so a correct stack refuses it
     /// from the claimed length alone (without allocating, without arithmetic overflow)
     PushManyClaimed(usize),
+    /// try_extend from an iterator that never ends (its size hint promises usize::MAX items):
+    /// on a bounded stack this must be an Overflow that leaves the contents alone - no attempt
+    /// to reserve room for what the iterator announces
+    TryExtendEndless,
 }
 
 impl Op {
@@ -49,7 +53,7 @@ impl Op {
             Op::Top3 => "top3",
             Op::Discard(_) => "discard",
             Op::PushMany(_) | Op::PushManyClaimed(_) => "push_many",
-            Op::TryExtend(_) => "try_extend",
+            Op::TryExtend(_) | Op::TryExtendEndless => "try_extend",
             Op::SetMax(_) => "set_max_stack_size",
         }
     }
@@ -59,6 +63,7 @@ impl Op {
             Op::Discard(n) => format!("discard({n})"),
             Op::PushMany(n) => format!("push_many({n} items)"),
             Op::PushManyClaimed(n) => format!("push_many(exact-size iterator claiming {n} items)"),
+            Op::TryExtendEndless => "try_extend(endless iterator)".to_string(),
             Op::TryExtend(n) => format!("try_extend({n} items)"),
             Op::SetMax(n) => {
                 if n == usize::MAX {
@@ -217,7 +222,7 @@ impl Model {
                     vec![(Ret::Overflow, same)]
                 }
             }
-            Op::PushManyClaimed(_) => vec![(Ret::Overflow, same)],
+            Op::PushManyClaimed(_) | Op::TryExtendEndless => vec![(Ret::Overflow, same)],
             Op::SetMax(_) => vec![(Ret::Unit, same)],
         }
     }
@@ -325,6 +330,13 @@ fn apply_real<T: Elem>(s: &mut Stack<T>, op: Op, vals: &[u32]) -> Ret {
             Ok(()) => Ret::Unit,
             Err(e) => conv_err(&e),
         },
+        Op::TryExtendEndless => {
+            let mut it = (0u32..).cycle().map(T::mk);
+            match s.try_extend(&mut it) {
+                Ok(()) => Ret::Unit,
+                Err(e) => conv_err(&e),
+            }
+        }
         Op::TryExtend(_) => {
             let items: Vec<T> = vals.iter().map(|v| T::mk(*v)).collect();
             // a plain iterator: no exact size, not double ended
@@ -595,6 +607,7 @@ fn random_history<T: Elem>(seed: u64, idx: u64, len: usize, rep: &mut Report) {
                     false => Op::PushManyClaimed(*g.pick(&claims)),
                 }
             }
+            68 if model.cap <= 100_000 => Op::TryExtendEndless,
             66..=77 => Op::PushMany(bulk(&mut g)),
             78..=89 => Op::TryExtend(bulk(&mut g)),
             _ => Op::SetMax(match g.below(6) {
@@ -660,6 +673,16 @@ pub fn run(args: &Args) -> i32 {
     });
     let exhaustive_ops = rep.evaluations;
 
+    // a freshly defaulted stack: empty, not full, unbounded
+    {
+        rep.eval();
+        let mut s: Stack<u32> = Stack::default();
+        let fresh_ok = s.size() == 0 && s.is_empty() && !s.is_full() && s.max_stack_size() == usize::MAX;
+        let grows = (0..5_000u32).all(|i| s.push(i).is_ok()) && s.size() == 5_000 && s.top().ok() == Some(&4_999);
+        if !fresh_ok || !grows {
+            rep.violation("C04/default-stack", || json!({"empty_unbounded_when_fresh": fresh_ok, "accepts_5000_pushes": grows, "max_stack_size": s.max_stack_size().to_string()}));
+        }
+    }
     // random long histories, two element types
     let n_hist = args.tier.pick(64, 1024);
     let len = 10_000;
